@@ -33,19 +33,22 @@ const (
 	rsQuery                   // open / close a query
 	rsReset
 	rsLate // first use of a resource type (registration + Add/Get/Remove), possibly while a query is open
+	rsLazy // A=type: Get through a long-lived generic mapper that is used only by explicit operations (never by the oracle)
 )
 
 func (c *resCfg) OpKind(op wx.Op) string {
-	return [...]string{"", "Add", "Remove", "EntityOp", "Query open/close", "Reset", "first use of a new resource type"}[op.K]
+	return [...]string{"", "Add", "Remove", "EntityOp", "Query open/close", "Reset", "first use of a new resource type", "long-lived mapper Get"}[op.K]
 }
 
 func (c *resCfg) OpString(op wx.Op) string {
 	tn := [...]string{"resA", "resB", "resC"}
 	switch op.K {
 	case rsAdd:
-		return fmt.Sprintf("%s(%s, pointer #%d)", [...]string{"Resources.Add", "generic.Resource.Add", "ecs.AddResource"}[op.C], tn[op.A], op.B)
+		return fmt.Sprintf("%s(%s, pointer #%d)", [...]string{"Resources.Add", "generic.Resource.Add", "ecs.AddResource", "long-lived generic.Resource.Add"}[op.C], tn[op.A], op.B)
 	case rsRemove:
-		return fmt.Sprintf("%s(%s)", [...]string{"Resources.Remove", "generic.Resource.Remove"}[op.C], tn[op.A])
+		return fmt.Sprintf("%s(%s)", [...]string{"Resources.Remove", "generic.Resource.Remove", "long-lived generic.Resource.Remove"}[op.C], tn[op.A])
+	case rsLazy:
+		return fmt.Sprintf("long-lived generic.Resource[%s].Get()", tn[op.A])
 	}
 	return c.OpKind(op)
 }
@@ -62,6 +65,10 @@ type resRun struct {
 	gA      generic.Resource[resA]
 	gB      generic.Resource[resB]
 	gC      generic.Resource[resC]
+	lA      generic.Resource[resA] // used by explicit operations only: whatever a mapper remembers is not refreshed by the oracle
+	lB      generic.Resource[resB]
+	lC      generic.Resource[resC]
+	lzSeen  [3]uint8 // what the long-lived mapper did last: 0 nothing, 1 saw absent / removed, 2/3 saw or added pointer #0/#1
 	q       *ecs.Query
 	outcome string
 	dead    bool
@@ -82,6 +89,7 @@ func (c *resCfg) New() wx.Run {
 	r.ptrs = [3][2]interface{}{{&resA{1}, &resA{2}}, {&resB{}, &resB{V: [2]int64{1, 2}}}, {&resC{}, &resC{}}}
 	// the generic mappers live as long as the world (as systems keep them), also across Reset
 	r.gA, r.gB, r.gC = generic.NewResource[resA](&r.w), generic.NewResource[resB](&r.w), generic.NewResource[resC](&r.w)
+	r.lA, r.lB, r.lC = generic.NewResource[resA](&r.w), generic.NewResource[resB](&r.w), generic.NewResource[resC](&r.w)
 	return r
 }
 
@@ -90,6 +98,7 @@ func (r *resRun) Outcome() string { return r.outcome }
 func (r *resRun) Key(buf []byte) []byte {
 	buf = r.w.VerifShape(buf, ecs.VerifIdleLockPoolAbstract)
 	buf = append(buf, byte(r.present[0]), byte(r.present[1]), byte(r.present[2]))
+	buf = append(buf, r.lzSeen[:]...)
 	// which pointer is actually stored (identity): 0 none, 1/2 the candidates, 3 anything else
 	for t := 0; t < 3; t++ {
 		got := r.w.Resources().Get(r.ids[t])
@@ -123,11 +132,11 @@ func (r *resRun) Enabled() []wx.Op {
 	ops := []wx.Op{}
 	for t := int8(0); t < 3; t++ {
 		for p := int8(0); p < 2; p++ {
-			for path := int8(0); path < 3; path++ {
+			for path := int8(0); path < 4; path++ {
 				ops = append(ops, wx.Op{K: rsAdd, A: t, B: p, C: path})
 			}
 		}
-		ops = append(ops, wx.Op{K: rsRemove, A: t, C: 0}, wx.Op{K: rsRemove, A: t, C: 1})
+		ops = append(ops, wx.Op{K: rsRemove, A: t, C: 0}, wx.Op{K: rsRemove, A: t, C: 1}, wx.Op{K: rsRemove, A: t, C: 2}, wx.Op{K: rsLazy, A: t})
 	}
 	if r.q == nil {
 		if r.entOps < 2 {
@@ -172,6 +181,15 @@ func (r *resRun) Apply(op wx.Op) wx.Result {
 				default:
 					r.gC.Add(ptr.(*resC))
 				}
+			case 3:
+				switch t {
+				case 0:
+					r.lA.Add(ptr.(*resA))
+				case 1:
+					r.lB.Add(ptr.(*resB))
+				default:
+					r.lC.Add(ptr.(*resC))
+				}
 			default:
 				var id ecs.ResID
 				switch t {
@@ -197,12 +215,60 @@ func (r *resRun) Apply(op wx.Op) wx.Result {
 				return r.fail("panic:add", fmt.Sprintf("%s panicked: %v", name, pv))
 			}
 			r.present[t] = int(op.B) + 1
+			if op.C == 3 {
+				r.lzSeen[t] = uint8(op.B) + 2
+			}
 		}
+	case rsLazy:
+		t := int(op.A)
+		var got interface{}
+		var has bool
+		pv := catchP(func() {
+			switch t {
+			case 0:
+				has = r.lA.Has()
+				if p := r.lA.Get(); p != nil {
+					got = p
+				}
+			case 1:
+				has = r.lB.Has()
+				if p := r.lB.Get(); p != nil {
+					got = p
+				}
+			default:
+				has = r.lC.Has()
+				if p := r.lC.Get(); p != nil {
+					got = p
+				}
+			}
+		})
+		if pv != nil {
+			return r.fail("res:lazy-get-panic", fmt.Sprintf("%s panicked: %v", name, pv))
+		}
+		var want interface{}
+		if r.present[t] != 0 {
+			want = r.ptrs[t][r.present[t]-1]
+		}
+		if got != want || has != (want != nil) {
+			return r.fail("res:lazy-get-stale", fmt.Sprintf("%s: a mapper that was used before (and not in between) does not return the resource that is stored now (Has = %t, pointer as stored: %t, expected present: %t)", name, has, got == want, want != nil))
+		}
+		r.lzSeen[t] = uint8(r.present[t]) + 1
 	case rsRemove:
 		t := int(op.A)
 		pv := catchP(func() {
 			if op.C == 0 {
 				w.Resources().Remove(r.ids[t])
+				return
+			}
+			if op.C == 2 {
+				switch t {
+				case 0:
+					r.lA.Remove()
+				case 1:
+					r.lB.Remove()
+				default:
+					r.lC.Remove()
+				}
 				return
 			}
 			switch t {
@@ -224,6 +290,9 @@ func (r *resRun) Apply(op wx.Op) wx.Result {
 				return r.fail("panic:remove", fmt.Sprintf("%s panicked: %v", name, pv))
 			}
 			r.present[t] = 0
+			if op.C == 2 {
+				r.lzSeen[t] = 1
+			}
 		}
 	case rsEntity:
 		r.entOps++
